@@ -121,6 +121,15 @@ def real_verdicts(text, rules, ts=False):
         full = len(validate_ast(schema(), doc).errors)
     except Exception as e:
         full = "raises:" + type(e).__name__
+    # the same text parsed WITHOUT positions (parse(..., no_location=True), a documented parser option) is the same document:
+    # validation must not raise on it either and must reach the same verdict
+    if not isinstance(full, str):
+        try:
+            nl = len(validate_ast(schema(), parse(text, allow_type_system=ts, no_location=True)).errors)
+            if (nl == 0) != (full == 0):
+                full = "verdict-differs:without-locations"
+        except Exception as e:
+            full = "raises:%s:without-locations" % type(e).__name__
     return per, full
 
 
